@@ -92,7 +92,58 @@ def _bucket_c16(brng):
     }
 
 
+_ENUM = []
+
+
+def c16_enumerated():
+    """Systematic block at the start of the thorough tier: every ordering of L distinct losses
+    for L <= 5, every max_patience 0..L (data loop), max_epochs/steps in {L-1, L, L+1}, both
+    return_best values, both loops. (A supplement to the seeded search, not a replacement.)"""
+    if _ENUM:
+        return _ENUM
+    from itertools import permutations
+
+    for loop in ("vi", "data"):
+        for L in range(0, 6):
+            for perm in permutations(range(L)):
+                pats = [None] if loop == "vi" else list(range(0, L + 1))
+                for pat in pats:
+                    for m in sorted({max(L - 1, 0), L, L + 1}):
+                        for rb in (True, False):
+                            _ENUM.append((loop, L, perm, pat, m, rb))
+    return _ENUM
+
+
+def _enum_world_c16(idx):
+    loop, L, perm, pat, m, rb = c16_enumerated()[idx]
+    v = [float(x) for x in perm]
+    w = {"engine": "A", "prop": "C16", "idx": idx, "loop": loop, "key_style": "legacy", "key_seed": idx, "return_best": rb,
+         "show_progress": False, "tail": {"kind": "inc", "base": 5000.0}, "faults": {}, "enumerated": True}
+    if loop == "vi":
+        w["steps"] = m
+        w["script"] = v
+    else:
+        w.update({"n": 6, "val_prop": 0.5, "batch_size": 3, "ncols": 1, "cond_cols": 0, "np_inputs": True, "max_epochs": m, "max_patience": pat})
+        script = [1000.0 + i for i in range(L + 2)]
+        for e in range(L):
+            script[e + 1] = v[e]
+        w["script"] = script
+        w["aimed_val"] = v
+    return w
+
+
 def world_c16(tier, seed, idx):
+    w = _world_c16(tier, seed, idx)
+    w["idx"] = idx
+    return w
+
+
+def _world_c16(tier, seed, idx):
+    if tier == "thorough":
+        n_enum = len(c16_enumerated())
+        if idx < n_enum:
+            return _enum_world_c16(idx)
+        idx = idx - n_enum + (1 << 20)  # keep the random part disjoint from the quick tier's indices
     K = K_BUCKET["C16"]
     b = _bucket_c16(rng_for(seed, "C16", tier, "bucket", idx // K))
     rng = rng_for(seed, "C16", tier, "run", idx)
@@ -146,7 +197,7 @@ def _bucket_c15(brng, tier, bidx):
         "n": n,
         "batch_size": bs,
         "val_prop": vp,
-        "ncols": brng.choice([1, 2, 3]),
+        "ncols": brng.choice([0, 1, 2, 3]),
         "cond_cols": brng.choice([0, 1, 2]),
         "key_style": brng.choice(["legacy", "legacy", "typed"]),
         "np_inputs": brng.random() < 0.7,
